@@ -81,6 +81,13 @@ func (b *Body) Read(p []byte) (int, error) {
 func ReadAllSized(r io.Reader, sizes []int, yieldEvery int, label string) ([]byte, error) {
 	var out []byte
 	i := 0
+	max := 32 * 1024
+	for _, s := range sizes {
+		if s > max {
+			max = s
+		}
+	}
+	scratch := make([]byte, max) // one buffer for the whole drain
 	for {
 		sz := 32 * 1024
 		if len(sizes) > 0 {
@@ -95,7 +102,7 @@ func ReadAllSized(r io.Reader, sizes []int, yieldEvery int, label string) ([]byt
 				s.Yield(label)
 			}
 		}
-		buf := make([]byte, sz)
+		buf := scratch[:sz]
 		n, err := r.Read(buf)
 		out = append(out, buf[:n]...)
 		if err == io.EOF {
